@@ -222,7 +222,33 @@ func genC14(t *rapid.T) c14Case {
 		}
 		c.Queries = append(first, c.Queries...)
 	}
+	for _, l := range lists {
+		if strings.Contains(l.Text, "twice.example twice.example") && chance(t, "repeated-host-first", 2) {
+			// the very first lookups of a hosts bucket that lists one line twice happen at the same time
+			var first []Q
+			for i := rapid.IntRange(16, 48).Draw(t, "ntwice"); i > 0; i-- {
+				first = append(first, Q{Host: true, Hostname: pick(t, "twice", []string{"twice.example", "twice.example", "other.twice.example"})})
+			}
+			c.Queries = append(first, c.Queries...)
+			break
+		}
+	}
 	n := len(c.Queries) + rapid.IntRange(50, scale(200, 400)).Draw(t, "nqueries")
+	if rare(t, "more-rules-than-a-small-cache-holds", 8) {
+		// more than a thousand rules, each behind its own window, and for each of them a URL that contains the
+		// window twice: every query loads one rule, the whole run far more than a thousand
+		var sb strings.Builder
+		for i := 0; i < 1200; i++ {
+			fmt.Fprintf(&sb, "m%04dq^\n", i)
+		}
+		c.Lists = append(c.Lists, ListSpec{ID: 515151, Text: sb.String(), File: chance(t, "mass-file", 2)})
+		start := rapid.IntRange(0, 1199).Draw(t, "mass-start")
+		for i := 0; i < 1200; i++ {
+			k := (start + i*7) % 1200
+			c.Queries = append(c.Queries, Q{URL: fmt.Sprintf("http://x.com/m%04dq/m%04dq", k, k), Typ: "script"})
+		}
+		n = len(c.Queries) + 10
+	}
 	for len(c.Queries) < n {
 		if len(c.Queries) > 0 && chance(t, "dup", 2) {
 			c.Queries = append(c.Queries, c.Queries[rapid.IntRange(0, len(c.Queries)-1).Draw(t, "dup-of")])
